@@ -58,6 +58,7 @@ func (c *Cluster) randomAction() {
 			add(14, func() { n := pick(c.Rng, alive); c.trace("applythread %d", n.ID); c.applyThread(n) })
 		}
 		add(7, func() { c.propose(pick(c.Rng, alive)) })
+		add(2, func() { c.proposeBatch(pick(c.Rng, alive)) })
 		add(1, func() { n := pick(c.Rng, alive); c.trace("campaign %d", n.ID); n.Campaign() })
 		if c.O.ConfChanges {
 			add(2, func() { c.proposeConfChange(pick(c.Rng, alive)) })
@@ -86,6 +87,19 @@ func (c *Cluster) randomAction() {
 		}
 		if len(c.snapsInFlight) > 0 {
 			add(3, func() { c.reportSnapshot() })
+			add(1, func() {
+				// the transport may report the target of a snapshot unreachable before its outcome is known
+				for k := range c.snapsInFlight {
+					if n := c.Nodes[k[0]]; n != nil && n.Alive && n.RN != nil {
+						c.trace("report unreachable %d->%d (snapshot in flight)", k[0], k[1])
+						n.ReportUnreachable(k[1])
+					}
+					return
+				}
+			})
+		}
+		if c.O.SnapHeavy {
+			add(6, func() { c.compact(pick(c.Rng, alive)) })
 		}
 		add(1, func() {
 			if c.Rng.Intn(4) == 0 {
@@ -116,9 +130,17 @@ func (c *Cluster) randomAction() {
 	}
 	if c.O.Partitions {
 		add(1, func() {
-			if c.Rng.Intn(3) == 0 {
+			if c.Rng.Intn(3) == 0 || c.O.IsolateLeader {
 				c.repartition()
 			}
+		})
+	}
+	if len(c.Archive) > 0 {
+		add(1+c.O.DupPct/5, func() {
+			nm := c.Archive[c.Rng.Intn(len(c.Archive))]
+			c.Net = append(c.Net, netMsg{m: cloneMsg(nm.m), from: nm.from})
+			c.Stats["msg_late_dup"]++
+			c.deliver(len(c.Net)-1, true)
 		})
 	}
 	total := 0
@@ -155,6 +177,16 @@ func (c *Cluster) repartition() {
 	for _, id := range c.IDs {
 		c.Part[id] = c.Rng.Intn(2)
 	}
+	if c.O.IsolateLeader && c.Rng.Intn(3) != 0 {
+		// cut the current leader(s) off from everybody else
+		for _, n := range c.alive() {
+			if n.RN.BasicStatus().RaftState == raft.StateLeader {
+				c.Part[n.ID] = 1
+			} else {
+				c.Part[n.ID] = 0
+			}
+		}
+	}
 	c.trace("partition %v", c.Part)
 	c.Stats["partition"]++
 }
@@ -177,6 +209,45 @@ func (c *Cluster) propose(n *Node) {
 	c.Mon.beforePropose(n, data)
 	err := n.Propose(data)
 	c.Mon.afterPropose(n, data, err)
+}
+
+// proposeBatch steps one MsgProp carrying several entries (applications may batch proposals; a
+// follower forwards such a message as is). With ConfChanges enabled the batch may contain
+// configuration changes at any position.
+func (c *Cluster) proposeBatch(n *Node) {
+	k := 2 + c.Rng.Intn(3)
+	var ents []*pb.Entry
+	var datas [][]byte
+	for i := 0; i < k; i++ {
+		if c.O.ConfChanges && c.Rng.Intn(4) == 0 {
+			if cc := c.randomConfChange(n); cc != nil {
+				typ, data, _ := pb.MarshalConfChange(cc)
+				ents = append(ents, &pb.Entry{Type: typ.Enum(), Data: data})
+				continue
+			}
+		}
+		c.propSeq++
+		data := []byte(fmt.Sprintf("p%d", c.propSeq))
+		if c.O.BigPayloads && c.Rng.Intn(3) == 0 {
+			data = append(data, make([]byte, c.Rng.Intn(150))...)
+		}
+		datas = append(datas, data)
+		ents = append(ents, &pb.Entry{Data: data})
+	}
+	m := &pb.Message{Type: pb.MsgProp.Enum(), From: new(n.ID), Entries: ents}
+	c.trace("propose batch at %d (%d entries)", n.ID, len(ents))
+	c.Stats["propose_batch"]++
+	for _, d := range datas {
+		c.Mon.registerProposal(n, d)
+	}
+	c.Mon.beforeStep(n, m)
+	err := n.Step(m)
+	c.Mon.afterStep(n, m, err)
+	if err == raft.ErrProposalDropped {
+		for _, d := range datas {
+			c.Mon.markDropped(d)
+		}
+	}
 }
 
 func (c *Cluster) readIndex(n *Node) {
@@ -206,6 +277,18 @@ func (c *Cluster) reportSnapshot() {
 
 // proposeConfChange issues a random membership change at node n, derived from n's current view.
 func (c *Cluster) proposeConfChange(n *Node) {
+	cc := c.randomConfChange(n)
+	if cc == nil {
+		return
+	}
+	c.trace("proposecc at %d %s", n.ID, raft.DescribeConfChange(cc))
+	c.Stats["proposecc"]++
+	c.Mon.beforeProposeCC(n, cc)
+	err := n.ProposeCC(cc)
+	c.Mon.afterProposeCC(n, cc, err)
+}
+
+func (c *Cluster) randomConfChange(n *Node) pb.ConfChangeI {
 	st := n.RN.Status()
 	cfg := st.Config
 	voters := map[uint64]bool{}
@@ -277,11 +360,7 @@ func (c *Cluster) proposeConfChange(n *Node) {
 		}
 		cc = &pb.ConfChangeV2{Transition: tr.Enum(), Changes: changes}
 	}
-	c.trace("proposecc at %d %s", n.ID, raft.DescribeConfChange(cc))
-	c.Stats["proposecc"]++
-	c.Mon.beforeProposeCC(n, cc)
-	err := n.ProposeCC(cc)
-	c.Mon.afterProposeCC(n, cc, err)
+	return cc
 }
 
 // stopRemoved: "nodes removed from [the committed configuration] are stopped" (C15). The committed
@@ -337,11 +416,19 @@ func (c *Cluster) converge() {
 			c.restart(n)
 		}
 	}
+	// The bound of C15 is probabilistic (randomised election timeouts break ties): the suffix runs for
+	// c.O.Converge election timeouts and is then extended, up to 8 times that, for as long as the group
+	// has not converged; only a group that is still not converged after the longest suffix is reported.
 	rounds := c.O.Converge * c.O.ElectionTick
 	c.Mon.onConvergeStart()
-	for r := 0; r < rounds && !c.fatal(); r++ {
+	for r := 0; r < 8*rounds && !c.fatal(); r++ {
+		if r >= rounds && r%c.O.ElectionTick == 0 && c.Mon.converged() {
+			break
+		}
 		c.stopRemoved()
-		for _, n := range c.alive() {
+		al := c.alive()
+		c.Rng.Shuffle(len(al), func(i, j int) { al[i], al[j] = al[j], al[i] })
+		for _, n := range al {
 			n.Tick()
 			c.Mon.afterTick(n)
 		}
